@@ -50,6 +50,16 @@ Definition fetch_origin (dir ctlh : string) : members :=
      m_dat := origin (PMember dir MDat (datahash_of ctl));
      m_tar := origin (PMember dir MTar (datahash_of ctl)) |}.
 
+(* ... and exactly: the signature section is part of what a build obtains (its
+   size is written into the image) when the package has one; [signed dir ctlh]
+   says whether the package with that control checksum has *)
+Definition fetch_origin_exact (signed : string -> string -> bool) (dir ctlh : string) : members :=
+  let ctl := origin (PMember dir MCtl ctlh) in
+  {| m_ctl := ctl;
+     m_sig := if signed dir ctlh then Some (origin (PMember dir MSig ctlh)) else None;
+     m_dat := origin (PMember dir MDat (datahash_of ctl));
+     m_tar := origin (PMember dir MTar (datahash_of ctl)) |}.
+
 (* the files that get installed; the signature section is compared separately:
    it is optional in the cache (unsigned packages) but its SIZE is recorded in
    the image (S: line of the installed database), see c19_lookup_not_atomic_refuted *)
